@@ -134,8 +134,11 @@ impl Case<'_> {
 }
 
 /// Per-worker "library call in progress since" timestamps (ms since start, 0 = idle) for the
-/// hang watchdog, plus the case each worker is running.
+/// hang watchdog, plus the CPU time the worker thread had consumed when the call began, the
+/// thread's CPU-time clock id, and the case each worker is running.
 static CALL_START: [AtomicU64; 128] = [const { AtomicU64::new(0) }; 128];
+/// clock id + 1 (0 = not registered)
+static THREAD_CLOCK: [AtomicU64; 128] = [const { AtomicU64::new(0) }; 128];
 static CASE_IDS: Mutex<Vec<(String, u64)>> = Mutex::new(Vec::new());
 static NEXT_SLOT: AtomicU64 = AtomicU64::new(0);
 static EPOCH: std::sync::OnceLock<Instant> = std::sync::OnceLock::new();
@@ -144,8 +147,52 @@ fn now_ms() -> u64 {
     EPOCH.get_or_init(Instant::now).elapsed().as_millis() as u64 + 1
 }
 
+/// CPU time of threads (the verdict "this call spins" must not depend on how loaded the machine
+/// is: a descheduled or memory-stalled thread accumulates wall-clock time but no CPU time).
+#[cfg(all(target_os = "linux", not(miri)))]
+mod cputime {
+    #[repr(C)]
+    struct Timespec {
+        tv_sec: i64,
+        tv_nsec: i64,
+    }
+    extern "C" {
+        fn pthread_self() -> usize;
+        fn pthread_getcpuclockid(thread: usize, clock_id: *mut i32) -> i32;
+        fn clock_gettime(clk: i32, ts: *mut Timespec) -> i32;
+    }
+    /// The calling thread's CPU-time clock id.
+    pub fn own_clock() -> Option<i32> {
+        let mut cid = 0i32;
+        // SAFETY: plain libc calls with a valid out-pointer
+        let rc = unsafe { pthread_getcpuclockid(pthread_self(), &mut cid) };
+        (rc == 0).then_some(cid)
+    }
+    pub fn read_ms(cid: i32) -> Option<u64> {
+        let mut ts = Timespec { tv_sec: 0, tv_nsec: 0 };
+        // SAFETY: plain libc call with a valid out-pointer
+        let rc = unsafe { clock_gettime(cid, &mut ts) };
+        (rc == 0).then(|| ts.tv_sec as u64 * 1000 + ts.tv_nsec as u64 / 1_000_000)
+    }
+}
+#[cfg(not(all(target_os = "linux", not(miri))))]
+mod cputime {
+    pub fn own_clock() -> Option<i32> {
+        None
+    }
+    pub fn read_ms(_cid: i32) -> Option<u64> {
+        None
+    }
+}
+
 thread_local! {
-    static SLOT: usize = (NEXT_SLOT.fetch_add(1, Ordering::Relaxed) as usize) % 128;
+    static SLOT: usize = {
+        let slot = (NEXT_SLOT.fetch_add(1, Ordering::Relaxed) as usize) % 128;
+        if let Some(cid) = cputime::own_clock() {
+            THREAD_CLOCK[slot].store(cid as u32 as u64 + 1, Ordering::Relaxed);
+        }
+        slot
+    };
 }
 
 fn set_case(workload: &str, index: u64) {
@@ -157,15 +204,44 @@ fn set_case(workload: &str, index: u64) {
     g[slot] = (workload.to_string(), index);
 }
 
-/// Starts a thread that reports a single library call running longer than `limit_s` seconds as a
-/// hang (seven orders of magnitude above the normal cost of a call) and ends the process.
+/// Starts a thread that reports a single library call that has consumed more than `limit_s` seconds
+/// of CPU TIME (seven orders of magnitude above the normal cost of a call) as a hang and ends the
+/// process. Wall-clock time alone never yields a verdict: on a loaded machine a thread can be
+/// descheduled or stalled in the allocator for a long time (seen once: 20 s of wall-clock time for a
+/// call that takes microseconds); the outer wall-clock limit in ./check yields "inconclusive".
 pub fn start_hang_watchdog(prop: &'static str, seed: u64, out_dir: PathBuf, limit_s: u64) {
-    std::thread::spawn(move || loop {
-        std::thread::sleep(std::time::Duration::from_millis(500));
-        let now = now_ms();
-        for (slot, a) in CALL_START.iter().enumerate() {
-            let t = a.load(Ordering::Relaxed);
-            if t != 0 && now.saturating_sub(t) > limit_s * 1000 {
+    std::thread::spawn(move || {
+        // per slot: the call (identified by its start stamp) the watchdog has been watching, and the
+        // worker thread's CPU time when the watchdog first saw that call in progress. The workers
+        // themselves never read a clock per call (that would be a system call per library call).
+        let mut watched = [0u64; 128];
+        let mut cpu_base = [0u64; 128];
+        loop {
+            std::thread::sleep(std::time::Duration::from_millis(500));
+            let now = now_ms();
+            for (slot, a) in CALL_START.iter().enumerate() {
+                let t = a.load(Ordering::Relaxed);
+                if t == 0 {
+                    watched[slot] = 0;
+                    continue;
+                }
+                let clock = THREAD_CLOCK[slot].load(Ordering::Relaxed);
+                let cpu_now = if clock == 0 { None } else { cputime::read_ms((clock - 1) as u32 as i32) };
+                if watched[slot] != t {
+                    watched[slot] = t;
+                    cpu_base[slot] = cpu_now.unwrap_or(0);
+                    continue;
+                }
+                let cpu_used = cpu_now.map(|c| c.saturating_sub(cpu_base[slot]));
+                match cpu_used {
+                    Some(c) if c <= limit_s * 1000 => continue, // waiting or descheduled, not spinning
+                    None if now.saturating_sub(t) <= 30 * limit_s * 1000 => continue, // no CPU clock: be very generous
+                    _ => {}
+                }
+                // (the call may have ended and another begun since `t` was read: re-check)
+                if a.load(Ordering::Relaxed) != t {
+                    continue;
+                }
                 let (w, i) = CASE_IDS.lock().unwrap().get(slot).cloned().unwrap_or_default();
                 let rdir = out_dir.join("replay");
                 let _ = std::fs::create_dir_all(&rdir);
@@ -177,7 +253,7 @@ pub fn start_hang_watchdog(prop: &'static str, seed: u64, out_dir: PathBuf, limi
                     .with("workload", w)
                     .with("index", i)
                     .with("signature", "hang")
-                    .with("detail", Json::obj().with("problem", format!("a single library call has been running for more than {limit_s} s")));
+                    .with("detail", Json::obj().with("problem", format!("a single library call has consumed more than {limit_s} s of CPU time ({cpu_used:?} ms since first observed) without returning")));
                 let _ = std::fs::write(&path, j.render() + "\n");
                 println!("RAWVIOLATION\t{prop}\thang\t{}", path.display());
                 std::process::exit(0);
@@ -225,6 +301,24 @@ pub fn guarded<T>(f: impl FnOnce() -> T) -> Result<T, String> {
         Ok(v) => Ok(v),
         Err(_) => Err(take_panic()),
     }
+}
+
+/// Marks a library call as in progress for the hang watchdog without catching panics (used by the
+/// executor around every task poll). Nested inside `guarded` / another `timed` it changes nothing.
+pub fn timed<T>(f: impl FnOnce() -> T) -> T {
+    let slot = SLOT.with(|s| *s);
+    if CALL_START[slot].load(Ordering::Relaxed) != 0 {
+        return f();
+    }
+    CALL_START[slot].store(now_ms(), Ordering::Relaxed);
+    struct Clear(usize);
+    impl Drop for Clear {
+        fn drop(&mut self) {
+            CALL_START[self.0].store(0, Ordering::Relaxed);
+        }
+    }
+    let _clear = Clear(slot);
+    f()
 }
 
 /// Strips volatile parts (numbers) from a panic description so signatures stay stable.
@@ -306,7 +400,10 @@ impl Ctx {
     }
 
     pub fn report(&self, v: Violation) {
-        self.n_viol.fetch_add(1, Ordering::Relaxed);
+        // (a few hundred violating cases say as much as a few thousand: stop exploring early)
+        if self.n_viol.fetch_add(1, Ordering::Relaxed) + 1 >= 200 {
+            self.stop.store(true, Ordering::Relaxed);
+        }
         let mut g = self.violations.lock().unwrap();
         let same = g.iter().filter(|x| x.signature == v.signature).count();
         if same < 2 && g.len() < 12 {
